@@ -44,8 +44,19 @@ def plan(seed, subbatch):
     feed = sub_rng(seed, "preload")
     # the property singles out objects that start from zero or one candle
     pre_k = feed.choice((0, 0, 0, 1, 1, 2, feed.randint(0, n), n))
+    regimes, regime_len = None, (3, 40)
+    if subbatch == "faulty" and cfg.random() < 0.4:
+        regimes = world.REGIMES_NORMAL + cfg.sample(["stall", "stall0", "zerovol"], 2)
+        regime_len = cfg.choice(((1, 10), (5, 40)))
+    op_rng = sub_rng(seed, "operator")
+    extras = []
+    if route != "manager" and subbatch == "faulty":
+        for _ in range(op_rng.choice((0, 0, 1, 3))):
+            extras.append((op_rng.random(), {"op": op_rng.choice(("purge", "recalculate", "calculate"))}))
     pre, ops, fired, rows = planlib.stream_and_schedule(seed, subbatch, n, base_s, start, faults, burst,
-                                                        p_empty, preload=pre_k)
+                                                        p_empty, extras, preload=pre_k, regimes=regimes,
+                                                        regime_len=regime_len)
+    fired["operator_ops"] += len(extras)
     # occasionally a candle lifespan on top: conversion must still follow the recurrence over the
     # WHOLE stream, of which the retained window is a suffix
     lifespan = None
@@ -73,6 +84,7 @@ def execute(trace, ctx=None):
         label = spec_label(spec) if route != "manager" else "manager"
         lifespan = cfg.get("lifespan_s")
         life_armed = True
+        readings_purged = False
         delivered = []
         subject = view = None
         n_appends = 0
@@ -97,6 +109,14 @@ def execute(trace, ctx=None):
                     n_appends += 1 if rows else 0
                     delivered.extend(rows)
                     run.call(len(delivered), subject.append, mk_candles(rows))
+                    if rows:
+                        readings_purged = False
+                elif kind in ("purge", "recalculate", "calculate") and route != "manager":
+                    # operator actions between arrivals: they concern readings only and must leave the
+                    # converted candles (values, tag, recoverable raw values) exactly as they are
+                    run.call(len(delivered) * 4, getattr(subject, kind))
+                    run.stats["operator:" + kind] += 1
+                    readings_purged = kind == "purge"
                 else:
                     continue
             except LibError as e:
@@ -148,7 +168,8 @@ def execute(trace, ctx=None):
             run.state(kind, min(len(candles), 3), tf is not None)
             # readings are computed on the converted values (batch twin over the converted candles)
             member = member_of(route, subject)
-            if member is not None and candles and lifespan is None and (i == n_ops - 1 or i % 7 == 3):
+            if (member is not None and candles and lifespan is None and not readings_purged
+                    and (i == n_ops - 1 or i % 7 == 3)):
                 if kind == "new":
                     try:
                         run.call(len(delivered), subject.calculate)
